@@ -26,7 +26,7 @@ def classify(ctx: HandlerContext) -> Classification:
     tokens = ctx.tokens
     base = tokens[0] if tokens else "find"
 
-    for i, token in enumerate(tokens):
+    for token in tokens:
         # -ok/-okdir are interactive - always ask
         if token in ("-ok", "-okdir"):
             context = FLAG_CONTEXT.get(token)
@@ -36,23 +36,31 @@ def classify(ctx: HandlerContext) -> Classification:
         if token == "-delete":
             return Classification("ask", description=f"{base} -delete")
 
-        # -exec/-execdir - extract inner command and delegate
+    # -exec/-execdir - extract every inner command and delegate
+    inner_cmds = []
+    description = None
+    i = 0
+    while i < len(tokens):
+        token = tokens[i]
         if token in ("-exec", "-execdir"):
             inner_tokens = []
-            for j in range(i + 1, len(tokens)):
-                if tokens[j] in (";", "+"):
-                    break
+            j = i + 1
+            while j < len(tokens) and tokens[j] not in (";", "\\;", "+"):
                 inner_tokens.append(tokens[j])
-
+                j += 1
             if not inner_tokens:
                 return Classification("ask", description=f"{base} {token}")
+            inner_cmds.append(bash_join(inner_tokens))
+            if description is None:
+                description = f"{base} {token} {inner_tokens[0]}"
+            i = j
+        i += 1
 
-            inner_cmd = bash_join(inner_tokens)
-            inner_name = inner_tokens[0]
-            return Classification(
-                "delegate",
-                inner_command=inner_cmd,
-                description=f"{base} {token} {inner_name}",
-            )
+    if inner_cmds:
+        return Classification(
+            "delegate",
+            inner_command="; ".join(inner_cmds),
+            description=description,
+        )
 
     return Classification("allow", description=base)
